@@ -1,5 +1,5 @@
 # replay of a bounded stand-in violation: re-run native/c01_backends.py
 import sys
-print("Zgate(-0.3,) | q[1] of 2 after Del | q[0] (indices shifted by one) on fock: raised ValueError: axes don't match array")
+print('Catstate(0.8, 0.4, p=1.0); Rgate; BSgate on bosonic/real: quadrature moments / photon numbers [0.0, 0.0, 0.0, -0.0, -0.0, -0.0, 0.6628, 0.4702] differ from the fock simulator [0.0, -0.0, -0.0, 0.0, -0.0, -0.0, 0.6628, 0.4702]')
 print('REPLAY-VIOLATION')
 sys.exit(1)
